@@ -1507,7 +1507,10 @@ def _script_for(W, cp, st, idx):
     if kind == "truncated":
         # a script code whose last instruction is a push announcing more bytes than are left (consensus keeps such a tail
         # verbatim); code separators and a push of 0xab in front of it
-        tail = bytes([[0x05, 0x4C, 0x4D, 0x4E, 0x20][r % 5]]) + x[: r % 4]
+        body = bytearray(x[: r % 4])
+        if body and (r >> 8) & 1:
+            body[(r >> 9) % len(body)] = 0xAB     # something that would be a code separator if it were decoded
+        tail = bytes([[0x05, 0x4C, 0x4D, 0x4E, 0x20][r % 5]]) + bytes(body)
         return b"\xab" + base + sh.push(b"\xab") + b"\xab" + tail
     if kind == "sized":
         # a well-formed script code of an exact length (data-less opcodes only), to sit on the compact-size boundaries
